@@ -104,6 +104,25 @@ theorem E18_pos : 0 < E18 := by decide
 /-- `Uint256 -> Uint128` `try_into().map_err(..)?` -/
 @[inline] def to128 (a : Nat) : Res Nat := if a ≤ U128MAX then .ok a else .err
 
+/-- unchecked-after-`checked_div(..).unwrap()`: panics on ÷0 -/
+@[inline] def pdiv (a b : Nat) : Res Nat := if b = 0 then .panic else .ok (a / b)
+
+/-- `Decimal256::checked_mul` (atomics): full-width product, floor ÷ 10^18, `Err` on overflow -/
+@[inline] def dec256MulC (a b : Nat) : Res Nat :=
+  if a * b / E18 ≤ U256MAX then .ok (a * b / E18) else .err
+/-- `Decimal256::checked_div` (atomics) = `checked_from_ratio(a, b)`: `Err` on ÷0 / overflow -/
+@[inline] def dec256DivC (a b : Nat) : Res Nat := mulRatioC U256MAX a E18 b
+/-- `Decimal256::from_atomics(v, p).map_err(..)?` (terraswap_pair `decimal_with_precision`), atomics -/
+@[inline] def dec256WithPrecision (v p : Nat) : Res Nat :=
+  if p < 18 then cmul U256MAX v (10 ^ (18 - p))
+  else .ok (v / 10 ^ (p - 18))
+/-- terraswap_pair `to_uint256_with_precision`: `atomics / 10u128.pow(18 - precision)`; the `u32`
+    subtraction panics (overflow checks) when `precision > 18` -/
+@[inline] def dec256ToUintPrecision (v p : Nat) : Res Nat :=
+  if 18 < p then .panic else .ok (v / 10 ^ (18 - p))
+/-- `u64::checked_mul(..)` whose `None` is unwrapped by the caller -/
+@[inline] def pmul64 (a b : Nat) : Res Nat := pmul U64MAX a b
+
 /-- Integer square root, digit by digit from bit `k-1` down: the largest `r < 2^k`-extension of
     `r` with `r*r ≤ n`. `isqrt n` is `⌊√n⌋` for `n < 2^256` (what `Uint256::isqrt` returns). -/
 def isqrtBits : Nat → Nat → Nat → Nat
